@@ -687,6 +687,24 @@ def dict_forms_stream(ctx, res):
                 continue
             if got != want or dict(a.d) != builtin:
                 res.violate("C17:dict-differs:setdefault", "`typed.%s` for a key that is present does not return the entry / changes the dict" % form, dict(case, form=form, got=got, want=want))
+        # copies and queries of a dict that was emptied in place (the field's own "required" is about assignment, not about what a dict may become)
+        res.case(stable(["emptied", required]), kind="dict-forms:emptied")
+        sreq = cc.Schema()
+        sreq.r = cc.DictField(cc.StringField(), cc.IntField(), required=True, default=lambda: {"a": 1, "b": 2})
+        creq = sreq()
+        for how, empty in (("clear", lambda d: d.clear()), ("pop", lambda d: (d.pop("a"), d.pop("b"))), ("popitem", lambda d: (d.popitem(), d.popitem()))):
+            creq.r = {"a": 1, "b": 2}
+            try:
+                empty(creq.r)
+                cp = creq.r.copy()
+                if dict(cp) != {} or type(cp).__name__ != "DictProxy" or len(creq.r) != 0 or list(creq.r.items()) != []:
+                    raise ValueError("copy of an emptied dict is %r" % (cp,))
+                cp["z"] = 1
+                if "z" in creq.r:
+                    raise ValueError("the copy is the dict itself")
+            except Exception as e:  # noqa
+                res.violate("C17:dict-differs:emptied", "a typed dict emptied in place by %s: copy() does not give an empty typed dict of its own (%s)" % (how, type(e).__name__),
+                            dict(case, how=how, error=str(e)[:120]))
         # == and != are each other's negation
         b.d = dict(builtin)
         a.e = dict(builtin)
